@@ -156,6 +156,18 @@ def _c06():
     }
 
 
+def _c17():
+    hs = disp_harnesses(["apply"], tags=["external"]) + disp_harnesses(["empty_apply"], tags=["external"])
+    return {
+        "claim": "An identifier is looked up in the current input value first; only if that fails is the host's resolve called, exactly once with that symbol, unit when declined; applying an external calls the host's apply exactly once with the external's number and the argument, unit when declined; a callback's value is used for exactly that occurrence. Decided per corpus program against the reference evaluator's predicted call log, and for the External arm of apply in one-step harnesses.",
+        "functions": ["runtime/src/runtime/resolve.rs resolve", "runtime/src/runtime/apply.rs apply_internal (External arm)", "runtime/src/runtime/list.rs get_access_addr", "compiler/src/build/build.rs Identifier / Property / PrefixApply / SuffixApply / InfixApply arms"],
+        "bounds": "one-step: external left operand, right operand of symbolic type",
+        "outside": "the two shipped stores' own resolve/apply plumbing (set_resolver, BasicDataCompanion)",
+        "assumptions": ["contract model of the data trait; scripted host"],
+        "harnesses": hs,
+    }
+
+
 def _c07():
     c09 = _c09()["harnesses"]
     hs = [dict(h) for h in c09 if h["tier"] == "quick" and "_kf_" not in h["name"] and ("_ii_" in h["name"] or "_i_unary" in h["name"] or h["name"].endswith("_plus") or h["name"].endswith("_power") or h["name"].endswith("_remainder") or "unary" in h["name"])]
@@ -173,13 +185,110 @@ def _c07():
     }
 
 
-PROPERTIES = {
+
+# ------------------------------------------------------------------------------------------- template families
+
+QUICK_TEMPLATES = {
+    "C01": "sub_chain value_sub sub_group if_else_f chain3_default list_pairs access_key subexpr apply side_effect and_eval ident_arith".split(),
+    "C05": "sub_chain if_else_t chain3_default and_eval or_eval list_nested apply apply_nested subexpr side_effect".split(),
+    "C06": "if_else_f chain3_default chain_nodefault_hit chain_nodefault_miss cond_cmp and_eval or_skip apply apply_cond list_ops side_effect_value".split(),
+    "C10": "and_skip and_eval or_skip or_eval and_and cond_arms cond_arms_f chain3_default if_unit unless_f".split(),
+    "C17": "ident ident_arith ident_two ident_in_input side_effect_host apply_host cond_arms and_skip".split(),
+    "C20": None,
+    "C18": None,
+}
+
+
+def read_templates(tsv):
+    rows = []
+    try:
+        for line in open(tsv):
+            parts = line.rstrip("\n").split("\t")
+            if len(parts) >= 4:
+                rows.append({"harness": parts[0], "family": parts[1], "name": parts[2], "source": parts[3], "original": parts[4] if len(parts) > 4 else ""})
+    except OSError:
+        pass
+    return rows
+
+
+def tmpl_harnesses(rows, family, prop, what):
+    quick = QUICK_TEMPLATES.get(prop)
+    out = []
+    for r in rows:
+        if r["family"] != family:
+            continue
+        tier = "quick" if (quick is None or r["name"] in quick) else "thorough"
+        desc = "%s: source `%s`%s — %s" % (r["name"], r["source"], (" (variant of `%s`)" % r["original"]) if r["original"] else "", what)
+        out.append(H(r["harness"], "tmpl", tier, desc, cbmc_args=FIELD_SENS, timeout=1500 if tier == "thorough" else 600))
+    return out
+
+
+PROG_NOTE = "program = a template of /verif/templates.txt; its parse tree is the output of the real lex + parse of the current /repo tree (run natively and concretely by /verif/gen at every check); real build into the contract model BoundedData, real execute_current_instruction loop; every number literal (full i32; {-4..4, MIN, MAX, 31, 32} when the program contains * / // % ** << >>), the input value (unit / number / the list (:a = x, :b = y), symbolic choice) and all host answers (accept/decline, pushed value) are symbolic; all control-flow paths are inside the one query (cursor case split over the static control-flow graph)"
+PROG_FUNCS = ["compiler/src/build/build.rs build, handle_parse_node and every handle_*", "runtime/src/execute.rs execute_current_instruction", "runtime/src/runtime/*.rs as reached by the program", "data/src/data/number.rs SimpleNumber"]
+PROG_OUTSIDE = "programs outside the corpus; the lexer and the parser on any other input (they run concretely on the corpus only); the two shipped stores as build/run target (whole programs on them are out of CBMC's reach: DESIGN.md probe 14); float literals; text literals; more than 3 reapply iterations"
+
+
+def _c01(rows):
+    return {
+        "claim": "For every program of the corpus, building the real parser's tree and executing to completion leaves a current value structurally equal to the value the independent reference evaluator (harness/src/refmodel.rs) assigns to that tree, for every literal value, input value and host answer.",
+        "functions": PROG_FUNCS, "bounds": PROG_NOTE + "; <= 60 execution steps (concrete budget from the emitted instruction count)", "outside": PROG_OUTSIDE,
+        "assumptions": ["the reference evaluator is the meaning of the corpus programs (validated natively against the unchanged tree by harness/src/bin/selftest.rs)", "contract model of the data trait"],
+        "harnesses": tmpl_harnesses(rows, "prog", "C01", "result == reference evaluator"),
+    }
+
+
+def _c05(rows):
+    return {
+        "claim": "After build of every corpus program (alone, and as a second program behind existing instructions / jump entries / data): Put/Resolve operands name existing data of the expected kind, every jump operand and expression value names one of the build's own jump entries, every such entry points at one of the build's own instructions (no unpatched 0 placeholder survives: the second-program variant has non-zero bases), the stream ends in EndExpression/JumpTo, execution never leaves the static control-flow graph nor ends other than by the final EndExpression, and there is one metadata record per instruction naming an existing node.",
+        "functions": PROG_FUNCS[:1], "bounds": PROG_NOTE, "outside": PROG_OUTSIDE,
+        "assumptions": ["contract model of the data trait"],
+        "harnesses": tmpl_harnesses(rows, "prog", "C05", "well-formedness of the emitted stream") + tmpl_harnesses(rows, "prog2", "C05", "well-formedness relative to non-zero bases"),
+    }
+
+
+def _c20(rows):
+    return {
+        "claim": "A corpus program built into a data object that already holds another program (instructions, jump entries, constants) leaves that program's pieces unchanged, refers only to its own pieces, and computes from its reported entry point the value the reference evaluator assigns to it (= what it computes alone).",
+        "functions": PROG_FUNCS, "bounds": PROG_NOTE + "; the earlier program is a fixed 6-instruction residue with 3 jump entries and 2 constants", "outside": PROG_OUTSIDE + "; SimpleGarnishData's interning collisions",
+        "assumptions": ["contract model of the data trait"],
+        "harnesses": tmpl_harnesses(rows, "prog2", "C20", "second program in a shared data object"),
+    }
+
+
+def _c18(rows):
+    return {
+        "claim": "For each (original, layout variant) pair of the corpus — both parsed by the real parser — the variant's build + execution gives a value structurally equal to the reference value of the ORIGINAL's tree and the same host-call sequence, for every literal/input value and host answer.",
+        "functions": PROG_FUNCS + ["compiler/src/lex/lexer.rs, compiler/src/parse/parser.rs: executed concretely on both texts by /verif/gen"], "bounds": PROG_NOTE, "outside": PROG_OUTSIDE + "; tree-level equality of parse results for token sequences outside the corpus",
+        "assumptions": ["contract model of the data trait"],
+        "harnesses": tmpl_harnesses(rows, "layout", "C18", "variant == original"),
+    }
+
+
+def build_properties(tsv):
+    rows = read_templates(tsv)
+    props = dict(PROPERTIES_STATIC)
+    props["C01"] = _c01(rows)
+    props["C05"] = _c05(rows)
+    props["C18"] = _c18(rows)
+    props["C20"] = _c20(rows)
+    for pid, extra_what in (("C06", "stack depths on every path"), ("C10", "only what must be evaluated is evaluated: host-call log and result"), ("C17", "host-call log: resolve/apply called exactly as predicted")):
+        p = dict(props[pid])
+        p["harnesses"] = list(p["harnesses"]) + tmpl_harnesses(rows, "prog", pid, extra_what)
+        p["bounds"] = p.get("bounds", "") + " || program-level: " + PROG_NOTE
+        props[pid] = p
+    return {k: v for k, v in props.items() if v["harnesses"]}
+
+
+PROPERTIES_STATIC = {
     "C06": _c06(),
     "C07": _c07(),
     "C08": _c08(),
     "C09": _c09(),
     "C10": _c10(),
+    "C17": _c17(),
 }
+
+PROPERTIES = PROPERTIES_STATIC
 
 GENERATORS = {}
 
